@@ -101,7 +101,7 @@ type ScriptDraw struct {
 
 type workItem struct {
 	job    *Job
-	prefix []bool
+	prefix []int64
 }
 
 type Driver struct {
@@ -465,7 +465,7 @@ func (d *Driver) record(r *PathResult) {
 	}
 }
 
-func (d *Driver) runPath(job *Job, prefix []bool, tc *TermCtx, solver *Solver, st *Stats, rng *rand.Rand) (res *PathResult, sched [][]bool) {
+func (d *Driver) runPath(job *Job, prefix []int64, tc *TermCtx, solver *Solver, st *Stats, rng *rand.Rand) (res *PathResult, sched [][]int64) {
 	e := &Exec{
 		tc: tc, prog: d.prog, solver: solver, stats: st, job: job,
 		prefix: prefix, globals: map[*ssa.Global]*Object{}, inited: map[*ssa.Package]bool{},
@@ -477,7 +477,7 @@ func (d *Driver) runPath(job *Job, prefix []bool, tc *TermCtx, solver *Solver, s
 			if r := recover(); r != nil {
 				switch v := r.(type) {
 				case unsupported:
-					res.Outcome = "unsupported:" + v.msg
+					res.Outcome = "unsupported:" + v.msg + " @" + e.lastSite
 				case engineBug:
 					res.Outcome = "enginebug:" + v.msg
 				case pathEnd:
